@@ -1,21 +1,33 @@
-(* statement pins and axiom audit for C03 (compiled on every check) *)
+(* Props/C03.v — property C03 (time-lock aggregation and checking equal per-condition semantics):
+   statements only.  Each theorem is closed by `exact`.
+   Vocabulary (Locks/TimeLocks.v): [holds recs h t (coin, kind, v)] is the arithmetic definition of one
+   assertion on the chain state (h = previous transaction-block height, t = timestamp, recs = coin id ->
+   (confirmed_block_index, timestamp)), sums saturating at the type maximum; [check_time_locks recs b spends h t
+   nowrap] mirrors check_time_locks.rs on the owned summary; [bundle_assertions H fl spends] / [bundle_coins H spends]
+   read every lock/birth assertion / every spent coin id off the serialized bundle with Cond.Model.parse_opcode and
+   parse_args, independently of any folding; [apply_all] iterates Cond.Model.apply_condition. *)
 From ChiaV.Base Require Import Bytes Sha256.
 From ChiaV.Clvm Require Import Sexp Ints.
 From ChiaV.Gen Require Import Opcodes.
 From ChiaV.Cond Require Import Model.
-From ChiaV.Locks Require Import TimeLocks.
-From ChiaV.Props Require Import C03.
+From ChiaV.Locks Require Import TimeLocks FoldProofs ParseProofs TimeLocksProofs.
 Open Scope N_scope.
 
-Check C03_fold_sound_complete :
+(* (1) For EVERY bundle Cond.Model.parse_spends accepts (any flags, visitor, key oracle, hash function) and EVERY
+   chain state: the non-legacy check_time_locks passes on the folded summary iff every spent coin has a record and
+   every individual assertion of the bundle holds. *)
+Theorem C03_fold_sound_complete :
   forall (vk : bytes -> bool) (H : bytes -> bytes) (K : consts) (fl : cflags) (V : visitor)
          (spends : sexp) (max_cost clvm_cost : N) ret sps pairs (recs : coin_records) (h t : N),
     parse_spends vk H K fl V spends max_cost clvm_cost = Ok (ret, sps, pairs) ->
     (check_time_locks recs ret sps h t true = Ok tt <->
        Forall (fun c => recs c <> None) (bundle_coins H spends) /\
        Forall (holds recs h t) (bundle_assertions H fl spends)).
-Print Assumptions C03_fold_sound_complete.
-Check C03_fold_list_sound_complete :
+Proof. exact parse_spends_time_locks. Qed.
+
+(* (1, per spend) the same for the fold itself: Cond.Model.apply_condition iterated over ANY list of parsed
+   conditions of one spend, starting where process_single_spend starts (no lock field set) *)
+Theorem C03_fold_list_sound_complete :
   forall (vk : bytes -> bool) (K : consts) (fl : cflags) (st : lstate) (cs : list condition) (st' : lstate)
          (recs : coin_records) (h t : N),
     apply_all vk K fl st cs = Ok st' -> no_lock_fields (l_spend st) ->
@@ -23,20 +35,33 @@ Check C03_fold_list_sound_complete :
        check_time_locks recs (l_ret st) [] h t true = Ok tt /\
        recs (sp_coin_id (l_spend st)) <> None /\
        Forall (holds recs h t) (locks_of (sp_coin_id (l_spend st)) cs)).
-Print Assumptions C03_fold_list_sound_complete.
-Check C03_impossible_only_if :
+Proof. exact fold_list_sound_complete. Qed.
+
+(* (3) parse_spends rejects with an Impossible* code only if NO chain state (any records, height, timestamp)
+   satisfies the bundle's assertions *)
+Theorem C03_impossible_only_if :
   forall (vk : bytes -> bool) (H : bytes -> bytes) (K : consts) (fl : cflags) (V : visitor)
          (spends : sexp) (max_cost clvm_cost : N) (e : ecode),
     parse_spends vk H K fl V spends max_cost clvm_cost = Err e -> is_impossible e = true ->
     forall (recs : coin_records) (h t : N), ~ Forall (holds recs h t) (bundle_assertions H fl spends).
-Print Assumptions C03_impossible_only_if.
-Check C03_fold_list_reject_only_if :
+Proof. exact parse_spends_impossible_only_if. Qed.
+
+(* (3, per spend) the fold over one spend's conditions rejects with an Impossible* code, or with the
+   birth-mismatch code, only if no chain state satisfies that spend's assertions *)
+Theorem C03_fold_list_reject_only_if :
   forall (vk : bytes -> bool) (K : consts) (fl : cflags) (st : lstate) (cs : list condition) (e : ecode),
     apply_all vk K fl st cs = Err e -> no_lock_fields (l_spend st) ->
     is_impossible e = true \/ e = AssertMyBirthHeightFailed \/ e = AssertMyBirthSecondsFailed ->
     forall (recs : coin_records) (h t : N), ~ Forall (holds recs h t) (locks_of (sp_coin_id (l_spend st)) cs).
-Print Assumptions C03_fold_list_reject_only_if.
-Check C03_argument_classes :
+Proof. exact fold_list_reject_only_if. Qed.
+
+(* (2) argument classes.  For each of the ten opcodes (constants translated from opcodes.rs) and ANY argument atom b
+   (z = the integer it denotes), with the argument-list terminator accepted: parse_args either keeps the argument as a
+   value of the type (in range), or fails, or skips the condition; failure is justified by the arithmetic definition
+   being unsatisfiable in every chain state of the types, skipping by it being a tautology.  Out-of-range arguments are
+   read with exact integer sums ([holdsZ]); negative RELATIVE arguments need the chain invariant that a spent coin was
+   confirmed no later than the previous transaction block (see C03_negative_relative_needs_invariant). *)
+Theorem C03_argument_classes :
   forall (fl : cflags) (k : kind) (b : bytes) (tl : sexp),
     let c := Pair (Atom b) tl in
     let z := atom_val b in
@@ -60,14 +85,18 @@ Check C03_argument_classes :
              (forall cbi ts h t, (is_relative k = true -> coin_not_from_future cbi ts h t) -> holdsZ cbi ts h t k z)
     | SErr => exists e, parse_args fl c (kind_opcode k) = Err e
     end.
-Print Assumptions C03_argument_classes.
-Check C03_saturating_vs_exact :
+Proof. exact argument_classes. Qed.
+
+(* for an argument of the type, the saturating definition equals the exact integer reading unless the sum leaves the type *)
+Theorem C03_saturating_vs_exact :
   forall k v cbi ts h t,
     v < kind_width k -> state_in_range cbi ts h t ->
     (if kind_is_height k then cbi + v < U32 else ts + v < U64) \/ is_relative k = false \/ k = KBirthHeight \/ k = KBirthSeconds ->
     (holds_on cbi ts h t k v <-> holdsZ cbi ts h t k (Z.of_N v)).
-Print Assumptions C03_saturating_vs_exact.
-Check C03_saturating_at_overflow :
+Proof. exact holds_on_exact. Qed.
+
+(* ... and when it does: "not before" kinds hold exactly at the type maximum, "before" kinds everywhere below it *)
+Theorem C03_saturating_at_overflow :
   forall k v cbi ts h t,
     v < kind_width k -> state_in_range cbi ts h t ->
     (if kind_is_height k then U32 <= cbi + v else U64 <= ts + v) ->
@@ -78,45 +107,59 @@ Check C03_saturating_at_overflow :
     | KBeforeSecondsRelative => holds_on cbi ts h t k v <-> t < U64 - 1
     | _ => True
     end.
-Print Assumptions C03_saturating_at_overflow.
-Check C03_negative_relative_needs_invariant :
+Proof. exact holds_on_overflow. Qed.
+
+Theorem C03_negative_relative_needs_invariant :
   exists cbi ts h t z, (z < 0)%Z /\ state_in_range cbi ts h t /\ negative_fails KHeightRelative = false /\
                        ~ holdsZ cbi ts h t KHeightRelative z.
-Print Assumptions C03_negative_relative_needs_invariant.
-Check C03_ephemeral_relative_rejected :
+Proof. exact negative_relative_needs_invariant. Qed.
+
+(* (4) If parse_spends accepts a bundle, no spend carrying a relative or birth condition -- including one whose
+   negative/oversized argument turned it into a skipped no-op -- spends a coin created in the same bundle
+   (Cond.Model.is_ephemeral on the returned spends and the coin-id index of the bundle). *)
+Theorem C03_ephemeral_relative_rejected :
   forall (vk : bytes -> bool) (H : bytes -> bytes) (K : consts) (fl : cflags) (V : visitor)
          (iter tl : sexp) (max_cost clvm_cost : N) ret sps pairs,
     parse_spends vk H K fl V (Pair iter tl) max_cost clvm_cost = Ok (ret, sps, pairs) ->
     forall i sp, spend_nth iter i = Some sp ->
       existsb marks_relative (conds_of fl (spend_conditions sp)) = true ->
       is_ephemeral sps (spent_index H iter 0 []) i = false.
-Print Assumptions C03_ephemeral_relative_rejected.
-Check C03_legacy_differs_refuted :
+Proof. exact ephemeral_relative_rejected. Qed.
+
+(* (5) the legacy (wrapping) mode is NOT equivalent: it accepts a bundle whose assertion fails ... *)
+Theorem C03_legacy_differs_refuted :
   exists cs st' h t,
     apply_all (fun _ => false) ex_consts ex_flags ex_state cs = Ok st' /\ h < U32 /\ t < U64 /\
     check_time_locks ex_recs (l_ret st') [l_spend st'] h t false = Ok tt /\
     check_time_locks ex_recs (l_ret st') [l_spend st'] h t true <> Ok tt /\
     ~ Forall (holds ex_recs h t) (locks_of ex_id cs).
-Print Assumptions C03_legacy_differs_refuted.
-Check C03_legacy_rejects_true_refuted :
+Proof. exact legacy_accepts_failed_assertion. Qed.
+
+(* ... and rejects one whose assertion holds *)
+Theorem C03_legacy_rejects_true_refuted :
   exists cs st' h t,
     apply_all (fun _ => false) ex_consts ex_flags ex_state cs = Ok st' /\ h < U32 /\ t < U64 /\
     check_time_locks ex_recs (l_ret st') [l_spend st'] h t false <> Ok tt /\
     check_time_locks ex_recs (l_ret st') [l_spend st'] h t true = Ok tt /\
     Forall (holds ex_recs h t) (locks_of ex_id cs).
-Print Assumptions C03_legacy_rejects_true_refuted.
-Check C03_nonvacuous_accept :
+Proof. exact legacy_rejects_true_assertion. Qed.
+
+(* non-vacuity: a list with all ten kinds is accepted by the fold and holds; a conflicting pair is rejected *)
+Theorem C03_nonvacuous_accept :
   exists st', apply_all (fun _ => false) ex_consts ex_flags ex_state ex_conds = Ok st' /\
               no_lock_fields (l_spend ex_state) /\
               check_time_locks ex_recs (l_ret st') [l_spend st'] 20 1000 true = Ok tt /\
               Forall (holds ex_recs 20 1000) (locks_of ex_id ex_conds) /\
               length (locks_of ex_id ex_conds) = 12%nat.
-Print Assumptions C03_nonvacuous_accept.
-Check C03_nonvacuous_reject :
+Proof. exact ex_fold_accepts_and_holds. Qed.
+
+Theorem C03_nonvacuous_reject :
   apply_all (fun _ => false) ex_consts ex_flags ex_state [CAssertBeforeHeightRelative 5; CAssertHeightRelative 5]
     = Err ImpossibleHeightRelativeConstraints /\ is_impossible ImpossibleHeightRelativeConstraints = true.
-Print Assumptions C03_nonvacuous_reject.
-Check C03_nonvacuous_parse :
+Proof. exact ex_fold_rejects. Qed.
+
+(* non-vacuity at the level of parse_spends (coin ids by the Gallina SHA-256) *)
+Theorem C03_nonvacuous_parse :
   exists ret sps pairs,
     parse_spends (fun _ => false) sha256 ex_consts ex_flags VEmpty (ex_bundle sha256) 11000000000 0 = Ok (ret, sps, pairs) /\
     bundle_coins sha256 (ex_bundle sha256) = [ex_coin] /\
@@ -125,8 +168,9 @@ Check C03_nonvacuous_parse :
         (ex_coin, KHeightRelative, 7) ] /\
     check_time_locks (recs_of_list [(ex_coin, (10, 100))]) ret sps 17 1000 true = Ok tt /\
     check_time_locks (recs_of_list [(ex_coin, (10, 100))]) ret sps 16 1000 true <> Ok tt.
-Print Assumptions C03_nonvacuous_parse.
-Check C03_nonvacuous_ephemeral :
+Proof. exact ex_parse_accepts. Qed.
+
+Theorem C03_nonvacuous_ephemeral :
   parse_spends (fun _ => false) sha256 ex_consts ex_flags VEmpty
     (ex_eph_bundle sha256 [ex_cond ASSERT_HEIGHT_RELATIVE [Atom []]]) 11000000000 0 = Err EphemeralRelativeCondition /\
   parse_spends (fun _ => false) sha256 ex_consts ex_flags VEmpty
@@ -135,10 +179,11 @@ Check C03_nonvacuous_ephemeral :
     (ex_eph_bundle sha256 [ex_cond ASSERT_MY_BIRTH_SECONDS [Atom [x64]]]) 11000000000 0 = Err EphemeralRelativeCondition /\
   exists r, parse_spends (fun _ => false) sha256 ex_consts ex_flags VEmpty
     (ex_eph_bundle sha256 [ex_cond ASSERT_HEIGHT_ABSOLUTE [Atom [x64]]]) 11000000000 0 = Ok r.
-Print Assumptions C03_nonvacuous_ephemeral.
-Check C03_nonvacuous_impossible :
+Proof. exact ex_ephemeral_relative_rejected. Qed.
+
+Theorem C03_nonvacuous_impossible :
   parse_spends (fun _ => false) sha256 ex_consts ex_flags VEmpty
     (Pair (ex_list [ex_spend ex_p1 ex_ph1 [x0a]
        [ex_cond ASSERT_BEFORE_HEIGHT_ABSOLUTE [Atom [x64]]; ex_cond ASSERT_HEIGHT_ABSOLUTE [Atom [x64]]]]) (Atom []))
     11000000000 0 = Err ImpossibleHeightAbsoluteConstraints.
-Print Assumptions C03_nonvacuous_impossible.
+Proof. exact ex_parse_impossible. Qed.
